@@ -55,13 +55,49 @@ package supervisor_test
 //   * production map ranges are made reproducible by check.json "map_ranges";
 //     the per-run log is nevertheless written sorted per name.
 //
+// Extensions (second wave):
+//   * the kind name "Pipeline": RawConfigTrafficController routes objects of
+//     exactly that kind to TrafficController's pipeline map (Create/Update/
+//     DeletePipeline, the pipeline half of _cleanSpace); a fifth recording kind
+//     is registered under that name in place of the real Pipeline (export
+//     helper C20ReplaceKind), so names move between the pipeline map and the
+//     traffic-gate map by a change of kind, the last pipeline goes while gates
+//     stay (and the other way round), and the live set is read through the
+//     accessor responsible for the kind (GetPipeline / GetTrafficGate; a name
+//     held by both, or by the wrong one, is C20.live-set).
+//   * document shapes: the normalised document the API server stores (every
+//     default written out: mode, ns, version), JSON, comments + document
+//     marker. All are the same spec as the hand-written document => untouched.
+//   * "version:" is part of the spec: a version-only change is a spec change
+//     (Inherit exactly once).
+//   * unusable documents (kind not registered in this binary, validation
+//     failure, wrong field type, not YAML): the statement is silent about the
+//     name itself, two readings are accepted per name (nothing happens to it /
+//     it is absent); every OTHER name of the snapshot is judged as always, and
+//     the name is judged again under both readings once a good document
+//     follows.
+//   * another controller (task "mesh") drives a second namespace of the same
+//     TrafficController the way the ingress controllers do (Apply*ForSpec for
+//     everything wanted, Delete* for what is listed but not wanted, Clean),
+//     with the SAME names and under the same panic plan. The default namespace
+//     must not notice (doc/reference/controllers.md: "manages the resource in
+//     a namespaced way"); the objects of the other namespace are judged by the
+//     same lifecycle rules against the desired states (classes
+//     C20.other-namespace.*), pipelines and traffic gates being separate
+//     resources there.
+//   * readers also call RawConfigTrafficController.Status/GetPipeline,
+//     TrafficController.Status/ListPipelines/WalkPipelines/WalkTrafficGates and
+//     Status() of every controller (what StatusSyncController does).
+//
 // Violation classes: C20.kind-change (a call required by a change of kind is
 // missing or replaced), C20.init-missing / inherit-missing / close-missing,
 // C20.init-duplicate, C20.close-duplicate, C20.untouched, C20.spurious-<op>,
 // C20.wrong-spec, C20.instance-reuse, C20.predecessor,
 // C20.close-wrong-instance, C20.panic-isolation (a call is missing in a
 // snapshot in which another object's callback panicked), C20.live-set,
-// C20.not-reconciled, C20.deadlock, C20.process-crash (framework).
+// C20.not-reconciled, C20.deadlock, C20.process-crash (framework),
+// C20.other-namespace.<rule> (the same rules for the mesh task's namespace),
+// C20.other-namespace.apply-failed.
 
 import (
 	"fmt"
@@ -75,6 +111,7 @@ import (
 	"github.com/megaease/easegress/pkg/cluster/clustertest"
 	"github.com/megaease/easegress/pkg/context"
 	"github.com/megaease/easegress/pkg/logger"
+	"github.com/megaease/easegress/pkg/object/pipeline"
 	"github.com/megaease/easegress/pkg/object/rawconfigtrafficcontroller"
 	"github.com/megaease/easegress/pkg/object/trafficcontroller"
 	"github.com/megaease/easegress/pkg/option"
@@ -90,6 +127,26 @@ type c20Obj struct {
 	Kind string `json:"kind"`
 	Rev  int    `json:"rev"`
 	Alt  bool   `json:"alt,omitempty"` // YAML-equivalent other formatting
+	// Form selects another equivalent document shape: 1 = the normalised
+	// document the API server stores (sorted keys, every default written out,
+	// explicit default version), 2 = JSON, 3 = document marker + comments
+	Form int `json:"form,omitempty"`
+	// Ver 1 = a non-default "version:" (a change of Ver is a change of the spec)
+	Ver int `json:"ver,omitempty"`
+	// Bad != "" = the document under this name cannot be turned into a spec:
+	// "kind" (kind not registered in this binary), "enum" (fails validation),
+	// "type" (field of the wrong type), "garbage" (not YAML)
+	Bad string `json:"bad,omitempty"`
+}
+
+// c20MeshStep is one desired state another controller (the way the ingress
+// controllers do it) applies to ITS namespace of the TrafficController with
+// Apply*ForSpec / Delete* / Clean while the default namespace is reconciled
+// from the snapshots.
+type c20MeshStep struct {
+	GapUs int64    `json:"gap_us"`
+	Objs  []c20Obj `json:"objs"` // kinds: Pipeline or C20Gate only
+	Clean bool     `json:"clean,omitempty"`
 }
 
 type c20Snap struct {
@@ -126,6 +183,12 @@ type c20Scenario struct {
 	// MustNew runs (cyclic): the watcher filters are "code of the caller" and
 	// may be slow
 	CatDelaysUs []int64 `json:"cat_delays_us"`
+	// desired states applied to the namespace c20OtherNS by a "mesh" task
+	Mesh []c20MeshStep `json:"mesh,omitempty"`
+	// MeshStyle 0: Apply*ForSpec + delete what is listed but unwanted (ingress
+	// controllers); 1: own bookkeeping, Create*ForSpec / Update*ForSpec /
+	// Delete* (mesh worker ingress/egress)
+	MeshStyle int `json:"mesh_style,omitempty"`
 }
 
 const (
@@ -133,9 +196,14 @@ const (
 	c20KindBizB = "C20BizB"
 	c20KindPipe = "C20Pipe"
 	c20KindGate = "C20Gate"
+	// the kind name RawConfigTrafficController routes to the pipeline map
+	c20KindPL = pipeline.Kind
+
+	c20OtherNS  = "c20-other"
+	c20OtherVer = "easegress.megaease.com/v1"
 )
 
-var c20AllKinds = []string{c20KindBizA, c20KindBizB, c20KindPipe, c20KindGate}
+var c20AllKinds = []string{c20KindBizA, c20KindBizB, c20KindPipe, c20KindGate, c20KindPL}
 
 // c20Domain tells which controller is responsible for a kind: "biz" =
 // Supervisor (business controllers), "trf" = RawConfigTrafficController +
@@ -144,7 +212,7 @@ func c20Domain(kind string) string {
 	switch kind {
 	case c20KindBizA, c20KindBizB:
 		return "biz"
-	case c20KindPipe, c20KindGate:
+	case c20KindPipe, c20KindGate, c20KindPL:
 		return "trf"
 	}
 	return ""
@@ -154,15 +222,18 @@ var c20Domains = []string{"biz", "trf"}
 
 func c20Gen(rng *sim.Rand, tier string) interface{} {
 	sc := &c20Scenario{}
-	names := []string{"n1", "n2", "n3", "n4"}[:rng.Pick(1, 2, 2, 3, 3, 4, 4)]
+	names := []string{"n1", "n2", "n3", "n4", "n5", "n6"}[:rng.Pick(1, 2, 2, 3, 3, 4, 4, 4, 6)]
 	kc := rng.Bool(0.35)
-	// kinds available to the run (swarm): one domain only, or both
+	// kinds available to the run (swarm): one domain only, the usual pair of a
+	// real deployment (a traffic gate kind + Pipeline), or everything
 	kinds := c20AllKinds
-	switch rng.Intn(5) {
+	switch rng.Intn(7) {
 	case 0:
 		kinds = c20AllKinds[:2]
 	case 1:
 		kinds = c20AllKinds[2:]
+	case 2:
+		kinds = c20AllKinds[3:]
 	}
 	wUnch, wChange, wGone := rng.Pick(15, 40, 70), rng.Pick(10, 25, 45), rng.Pick(5, 15, 30)
 	wKC := 0
@@ -171,10 +242,17 @@ func c20Gen(rng *sim.Rand, tier string) interface{} {
 	}
 	appearP := float64(rng.Pick(30, 50, 85)) / 100
 	altP := float64(rng.Pick(0, 10, 30)) / 100
+	// document shapes: plain / stored form / JSON / comments
+	formP := float64(rng.Pick(0, 0, 15, 40, 100)) / 100
+	// a non-default version on some objects; a flip of it is a spec change
+	verP := float64(rng.Pick(0, 0, 0, 15, 40)) / 100
+	// documents that cannot be turned into a spec
+	badP := float64(rng.Pick(0, 0, 0, 0, 0, 8, 20)) / 100
 	type cur struct {
 		present bool
 		kind    string
 		rev     int
+		ver     int
 	}
 	state := map[string]*cur{}
 	maxRev := map[string]int{}
@@ -188,6 +266,16 @@ func c20Gen(rng *sim.Rand, tier string) interface{} {
 				return c
 			}
 		}
+	}
+	change := func(n string, c *cur) {
+		if verP > 0 && rng.Bool(verP) {
+			c.ver = 1 - c.ver
+			if rng.Bool(0.7) {
+				return
+			}
+		}
+		maxRev[n]++
+		c.rev = maxRev[n]
 	}
 	nsnap := rng.Range(2, 12)
 	// start-up runs: 1-4 snapshots are pushed before and while MustNew creates
@@ -218,6 +306,12 @@ func c20Gen(rng *sim.Rand, tier string) interface{} {
 		}
 		for _, n := range names {
 			c := state[n]
+			if badP > 0 && rng.Bool(badP) {
+				// the state of the generator does not move: the next good
+				// document is drawn relative to the last good one
+				sn.Objs = append(sn.Objs, c20Obj{Name: n, Kind: c.kind, Rev: c.rev, Ver: c.ver, Bad: rng.PickStr("kind", "kind", "enum", "type", "garbage")})
+				continue
+			}
 			if !c.present {
 				p := appearP
 				if i == 0 {
@@ -231,28 +325,33 @@ func c20Gen(rng *sim.Rand, tier string) interface{} {
 					c.kind = otherKind(c.kind)
 				}
 				if c.rev == 0 || rng.Bool(0.6) {
-					maxRev[n]++
-					c.rev = maxRev[n]
+					change(n, c)
+					if c.rev == 0 {
+						maxRev[n]++
+						c.rev = maxRev[n]
+					}
 				}
 			} else {
 				x := rng.Intn(uw + cw + gw + wKC)
 				switch {
 				case x < uw:
 				case x < uw+cw:
-					maxRev[n]++
-					c.rev = maxRev[n]
+					change(n, c)
 				case x < uw+cw+gw:
 					c.present = false
 					continue
 				default:
 					c.kind = otherKind(c.kind)
 					if rng.Bool(0.5) {
-						maxRev[n]++
-						c.rev = maxRev[n]
+						change(n, c)
 					}
 				}
 			}
-			sn.Objs = append(sn.Objs, c20Obj{Name: n, Kind: c.kind, Rev: c.rev, Alt: rng.Bool(altP)})
+			o := c20Obj{Name: n, Kind: c.kind, Rev: c.rev, Ver: c.ver, Alt: rng.Bool(altP)}
+			if formP > 0 && rng.Bool(formP) {
+				o.Form = rng.Pick(1, 1, 1, 2, 3)
+			}
+			sn.Objs = append(sn.Objs, o)
 		}
 		sc.Snaps = append(sc.Snaps, sn)
 	}
@@ -285,9 +384,56 @@ func c20Gen(rng *sim.Rand, tier string) interface{} {
 	for i, k := 0, rng.Pick(0, 0, 1, 2); i < k; i++ {
 		var rd c20Reader
 		for j, m := 0, rng.Range(1, 6); j < m; j++ {
-			rd.Ops = append(rd.Ops, c20ROp{GapUs: int64(rng.Pick(0, 1, 50, 1000, 3000)), Op: rng.PickStr("walk", "getbiz", "gettrf", "list"), Name: names[rng.Intn(len(names))]})
+			rd.Ops = append(rd.Ops, c20ROp{GapUs: int64(rng.Pick(0, 1, 50, 1000, 3000)),
+				Op:   rng.PickStr("walk", "getbiz", "gettrf", "list", "listp", "walkp", "status", "rcpipe"),
+				Name: names[rng.Intn(len(names))]})
 		}
 		sc.Readers = append(sc.Readers, rd)
+	}
+	// another controller drives its own namespace of the TrafficController
+	// with the same names (and the same panic plan) at the same time
+	if rng.Bool(0.3) {
+		sc.MeshStyle = rng.Pick(0, 0, 1)
+		type mk struct{ name, kind string }
+		var keys []mk
+		for _, n := range names {
+			keys = append(keys, mk{n, c20KindPL}, mk{n, c20KindGate})
+		}
+		live := map[mk]int{}
+		mrev := 0
+		for i, k := 0, rng.Range(1, 6); i < k; i++ {
+			st := c20MeshStep{GapUs: int64(rng.Pick(0, 1, 50, 1000, 5000))}
+			if rng.Bool(0.15) {
+				st.Clean = true
+				live = map[mk]int{}
+				sc.Mesh = append(sc.Mesh, st)
+				continue
+			}
+			for _, key := range keys {
+				rev, is := live[key]
+				switch {
+				case !is && rng.Bool(0.5):
+					mrev++
+					live[key] = mrev
+				case !is:
+					continue
+				case rng.Bool(0.25):
+					delete(live, key)
+					continue
+				case rng.Bool(0.5):
+					mrev++
+					live[key] = mrev
+				default:
+					live[key] = rev
+				}
+				o := c20Obj{Name: key.name, Kind: key.kind, Rev: live[key], Alt: rng.Bool(altP)}
+				if formP > 0 && rng.Bool(formP) {
+					o.Form = rng.Pick(1, 2, 3)
+				}
+				st.Objs = append(st.Objs, o)
+			}
+			sc.Mesh = append(sc.Mesh, st)
+		}
 	}
 	return sc
 }
@@ -296,6 +442,11 @@ func c20Gen(rng *sim.Rand, tier string) interface{} {
 
 type c20Spec struct {
 	Rev int `yaml:"rev" jsonschema:"omitempty"`
+	// Mode has a default ("auto"): the stored form of a document writes it
+	// out, hand-written documents leave it away
+	Mode string `yaml:"mode" jsonschema:"omitempty,enum=auto,enum=manual"`
+	// NS is set in the documents the mesh task applies to its own namespace
+	NS string `yaml:"ns" jsonschema:"omitempty"`
 }
 
 type c20Call struct {
@@ -306,6 +457,7 @@ type c20Call struct {
 	PredKind string
 	Kind     string
 	Rev      int
+	Ver      int
 	Panicked bool
 }
 
@@ -317,11 +469,18 @@ func (c *c20Call) String() string {
 			s += "(" + c.PredKind + ")"
 		}
 	}
-	s += fmt.Sprintf("(%s/r%d)", c.Kind, c.Rev)
+	s += fmt.Sprintf("(%s/r%d%s)", c.Kind, c.Rev, c20VerStr(c.Ver))
 	if c.Panicked {
 		s += "!"
 	}
 	return s
+}
+
+func c20VerStr(v int) string {
+	if v != 0 {
+		return "/v1"
+	}
+	return ""
 }
 
 type c20State struct {
@@ -349,6 +508,8 @@ type c20Rec struct {
 	name   string
 	kind   string
 	rev    int
+	ver    int
+	dom    string // set for objects of the mesh task's namespace
 }
 
 type c20Ident interface{ c20rec() *c20Rec }
@@ -377,14 +538,26 @@ func (b *c20Rec) hook(dom, op string, spec *supervisor.Spec, prev supervisor.Obj
 		return
 	}
 	if spec != nil {
-		b.name, b.kind, b.rev = spec.Name(), spec.Kind(), -1
+		b.name, b.kind, b.rev, b.ver = spec.Name(), spec.Kind(), -1, 0
+		if spec.Version() != supervisor.DefaultSpecVersion {
+			b.ver = 1
+		}
 		if s, ok := spec.ObjectSpec().(*c20Spec); ok {
 			b.rev = s.Rev
+			if s.NS != "" {
+				b.dom = c20OthDom(b.kind)
+			}
+			if s.Mode != "auto" {
+				b.rev = -2 // no generated document sets another mode
+			}
 		}
+	}
+	if b.dom != "" {
+		dom = b.dom
 	}
 	call := &c20Call{Op: op, Inst: b.ident(st), First: b.ncalls == 0}
 	b.ncalls++
-	call.Kind, call.Rev = b.kind, b.rev
+	call.Kind, call.Rev, call.Ver = b.kind, b.rev, b.ver
 	if prev != nil {
 		call.Pred = "foreign"
 		if p, ok := prev.(c20Ident); ok {
@@ -399,7 +572,9 @@ func (b *c20Rec) hook(dom, op string, spec *supervisor.Spec, prev supervisor.Obj
 	st.opN[key]++
 	call.Panicked = st.plan[fmt.Sprintf("%s|%d", key, st.opN[key])]
 	st.calls[name+"/"+dom] = append(st.calls[name+"/"+dom], call)
-	st.total++
+	if b.dom == "" {
+		st.total++
+	}
 	// a gate and a drawn delay in every callback
 	var d int64
 	if len(st.delays) > 0 {
@@ -413,7 +588,17 @@ func (b *c20Rec) hook(dom, op string, spec *supervisor.Spec, prev supervisor.Obj
 	}
 }
 
-func (b *c20Rec) DefaultSpec() interface{} { return &c20Spec{} }
+// c20OthDom names the lifecycle domain of an object of the mesh task's
+// namespace: pipelines and traffic gates are separate resources there (one
+// name may be both at once).
+func c20OthDom(kind string) string {
+	if kind == c20KindPL {
+		return "othP"
+	}
+	return "othG"
+}
+
+func (b *c20Rec) DefaultSpec() interface{} { return &c20Spec{Mode: "auto"} }
 func (b *c20Rec) Status() *supervisor.Status {
 	return &supervisor.Status{ObjectStatus: map[string]string{}}
 }
@@ -438,6 +623,25 @@ type c20BizA struct{ c20Ctl }
 type c20BizB struct{ c20Ctl }
 type c20Pipe struct{ c20Trf }
 type c20Gate struct{ c20Trf }
+
+// c20PL is registered under the kind name of the real Pipeline.
+type c20PL struct{ c20Trf }
+
+func (*c20PL) Kind() string { return c20KindPL }
+func (*c20PL) Category() supervisor.ObjectCategory {
+	c20CatHook()
+	return supervisor.CategoryPipeline
+}
+
+// Status has the shape RawConfigTrafficController.Status and
+// TrafficController.Status expect of a pipeline.
+func (*c20PL) Status() *supervisor.Status {
+	return &supervisor.Status{ObjectStatus: &pipeline.Status{}}
+}
+
+// Handle makes the object a context.Handler, which is what
+// RawConfigTrafficController.GetPipeline and Namespace.GetHandler expect.
+func (*c20PL) Handle(*context.Context) string { return "" }
 
 func (*c20BizA) Kind() string { return c20KindBizA }
 func (*c20BizB) Kind() string { return c20KindBizB }
@@ -481,13 +685,61 @@ func init() {
 	supervisor.Register(&c20BizB{})
 	supervisor.Register(&c20Pipe{})
 	supervisor.Register(&c20Gate{})
+	supervisor.C20ReplaceKind(&c20PL{})
 }
 
-func c20YAML(o c20Obj) string {
-	if o.Alt {
-		return fmt.Sprintf("rev: %d\n\nkind: %q\nname: '%s'\n", o.Rev, o.Kind, o.Name)
+// c20YAML writes the document of an object. All shapes of one (name, kind,
+// rev, ver) are the same spec: key order, quoting, JSON, comments, and the
+// stored form, in which every default (mode, ns, version) is written out.
+// oth = document of the mesh task's namespace (ns: other).
+func c20YAML(o c20Obj, oth bool) string {
+	switch o.Bad {
+	case "":
+	case "kind":
+		return fmt.Sprintf("name: %s\nkind: C20NoSuchKind\nrev: %d\n", o.Name, o.Rev)
+	case "enum":
+		return fmt.Sprintf("name: %s\nkind: %s\nrev: %d\nmode: bogus\n", o.Name, o.Kind, o.Rev)
+	case "type":
+		return fmt.Sprintf("name: %s\nkind: %s\nrev: [1, 2]\n", o.Name, o.Kind)
+	default:
+		return "name: [" + o.Name + "\n\t:: }"
 	}
-	return fmt.Sprintf("name: %s\nkind: %s\nrev: %d\n", o.Name, o.Kind, o.Rev)
+	ver, ns := supervisor.DefaultSpecVersion, ""
+	if o.Ver != 0 {
+		ver = c20OtherVer
+	}
+	if oth {
+		ns = "other"
+	}
+	var b strings.Builder
+	switch {
+	case o.Form == 1:
+		fmt.Fprintf(&b, "kind: %s\nmode: auto\nname: %s\nns: %q\nrev: %d\nversion: %s\n", o.Kind, o.Name, ns, o.Rev, ver)
+		return b.String()
+	case o.Form == 2:
+		fmt.Fprintf(&b, "{\"name\": %q, \"kind\": %q, \"rev\": %d", o.Name, o.Kind, o.Rev)
+		if o.Ver != 0 {
+			fmt.Fprintf(&b, ", \"version\": %q", ver)
+		}
+		if oth {
+			fmt.Fprintf(&b, ", \"ns\": %q", ns)
+		}
+		b.WriteString("}\n")
+		return b.String()
+	case o.Form == 3:
+		fmt.Fprintf(&b, "---\n# written by hand\nname: %s # the name\nkind: %s\n\n# revision\nrev: %d\n", o.Name, o.Kind, o.Rev)
+	case o.Alt:
+		fmt.Fprintf(&b, "rev: %d\n\nkind: %q\nname: '%s'\n", o.Rev, o.Kind, o.Name)
+	default:
+		fmt.Fprintf(&b, "name: %s\nkind: %s\nrev: %d\n", o.Name, o.Kind, o.Rev)
+	}
+	if o.Ver != 0 {
+		fmt.Fprintf(&b, "version: %s\n", ver)
+	}
+	if oth {
+		fmt.Fprintf(&b, "ns: %s\n", ns)
+	}
+	return b.String()
 }
 
 // ---- reference: expected calls per name --------------------------------------
@@ -496,27 +748,78 @@ type c20Exp struct {
 	Op   string
 	Kind string
 	Rev  int
+	Ver  int
 	Snap int
 	KC   bool // part of a change of kind
 }
 
 func (e *c20Exp) String() string {
-	s := fmt.Sprintf("%s(%s/r%d)@s%d", e.Op, e.Kind, e.Rev, e.Snap)
+	s := fmt.Sprintf("%s(%s/r%d%s)@s%d", e.Op, e.Kind, e.Rev, c20VerStr(e.Ver), e.Snap)
 	if e.KC {
 		s += "[kind-change]"
 	}
 	return s
 }
 
-func c20SnapMap(sn c20Snap) map[string]c20Obj {
+// c20SnapAll returns the entries of a snapshot the harness delivers (good and
+// bad documents), by name.
+func c20SnapAll(sn c20Snap) map[string]c20Obj {
 	m := map[string]c20Obj{}
 	for _, o := range sn.Objs {
 		if o.Name == "" || strings.ContainsAny(o.Name, "/|?") || c20Domain(o.Kind) == "" {
 			continue
 		}
+		if o.Ver != 0 {
+			o.Ver = 1
+		}
 		m[o.Name] = o
 	}
 	return m
+}
+
+// c20Resolved gives the objects the snapshots 0..upto stand for. A name whose
+// document cannot be turned into a spec is, under the reading absent=false,
+// what it was in the snapshot before (nothing happens to it), and under
+// absent=true not part of the snapshot; the statement does not say which.
+func c20Resolved(sc *c20Scenario, upto int, absent bool) []map[string]c20Obj {
+	var out []map[string]c20Obj
+	prev := map[string]c20Obj{}
+	for i := 0; i <= upto && i < len(sc.Snaps); i++ {
+		cur := map[string]c20Obj{}
+		for n, o := range c20SnapAll(sc.Snaps[i]) {
+			if o.Bad == "" {
+				cur[n] = o
+			} else if p, was := prev[n]; was && !absent {
+				cur[n] = p
+			}
+		}
+		out = append(out, cur)
+		prev = cur
+	}
+	return out
+}
+
+// c20BadNames returns the names that had an unusable document in snapshots
+// 0..upto.
+func c20BadNames(sc *c20Scenario, upto int) map[string]bool {
+	out := map[string]bool{}
+	for i := 0; i <= upto && i < len(sc.Snaps); i++ {
+		for _, o := range sc.Snaps[i].Objs {
+			if o.Bad != "" {
+				out[o.Name] = true
+			}
+		}
+	}
+	return out
+}
+
+// c20SnapMap is the snapshot under the reading absent=false.
+func c20SnapMap(sc *c20Scenario, i int) map[string]c20Obj {
+	r := c20Resolved(sc, i, false)
+	if i < 0 || i >= len(r) {
+		return map[string]c20Obj{}
+	}
+	return r[i]
 }
 
 func c20SortedNames(ms ...map[string]c20Obj) []string {
@@ -540,15 +843,15 @@ func c20SortedNames(ms ...map[string]c20Obj) []string {
 // while its kind belongs to the domain. fold is the number of leading
 // snapshots that had been applied before the domain's watcher existed: they
 // reach the controller folded into one state (the last of them), which is how
-// a state-based watcher legitimately starts.
-func c20ExpectDom(sc *c20Scenario, upto int, d string, fold int, out map[string][]*c20Exp) {
+// a state-based watcher legitimately starts. res = c20Resolved(...).
+func c20ExpectDom(res []map[string]c20Obj, d string, fold int, out map[string][]*c20Exp) {
 	prev := map[string]c20Obj{}
 	first := 0
 	if fold > 0 {
 		first = fold - 1
 	}
-	for i := first; i <= upto && i < len(sc.Snaps); i++ {
-		cur := c20SnapMap(sc.Snaps[i])
+	for i := first; i < len(res); i++ {
+		cur := res[i]
 		for _, n := range c20SortedNames(prev, cur) {
 			p, was := prev[n]
 			c, is := cur[n]
@@ -558,24 +861,76 @@ func c20ExpectDom(sc *c20Scenario, upto int, d string, fold int, out map[string]
 			isD := is && c20Domain(c.Kind) == d
 			switch {
 			case !wasD && isD:
-				out[key] = append(out[key], &c20Exp{"init", c.Kind, c.Rev, i, kc})
+				out[key] = append(out[key], &c20Exp{"init", c.Kind, c.Rev, c.Ver, i, kc})
 			case wasD && !isD:
-				out[key] = append(out[key], &c20Exp{"close", p.Kind, p.Rev, i, kc})
+				out[key] = append(out[key], &c20Exp{"close", p.Kind, p.Rev, p.Ver, i, kc})
 			case wasD && isD && kc:
-				out[key] = append(out[key], &c20Exp{"close", p.Kind, p.Rev, i, true}, &c20Exp{"init", c.Kind, c.Rev, i, true})
-			case wasD && isD && p.Rev != c.Rev:
-				out[key] = append(out[key], &c20Exp{"inherit", c.Kind, c.Rev, i, false})
+				out[key] = append(out[key], &c20Exp{"close", p.Kind, p.Rev, p.Ver, i, true}, &c20Exp{"init", c.Kind, c.Rev, c.Ver, i, true})
+			case wasD && isD && (p.Rev != c.Rev || p.Ver != c.Ver):
+				out[key] = append(out[key], &c20Exp{"inherit", c.Kind, c.Rev, c.Ver, i, false})
 			}
 		}
 		prev = cur
 	}
 }
 
-// c20Expect is the expectation of both domains without any folding.
+// c20Expect is the expectation of both domains without any folding (unusable
+// documents read as "nothing happens to the name").
 func c20Expect(sc *c20Scenario, upto int) map[string][]*c20Exp {
 	out := map[string][]*c20Exp{}
+	res := c20Resolved(sc, upto, false)
 	for _, d := range c20Domains {
-		c20ExpectDom(sc, upto, d, 0, out)
+		c20ExpectDom(res, d, 0, out)
+	}
+	return out
+}
+
+// c20MeshStates turns the mesh task's steps into desired states per domain
+// ("othP" pipelines, "othG" traffic gates of the other namespace).
+func c20MeshStates(sc *c20Scenario, upto int, dom string) []map[string]c20Obj {
+	var out []map[string]c20Obj
+	for i := 0; i <= upto && i < len(sc.Mesh); i++ {
+		cur := map[string]c20Obj{}
+		if !sc.Mesh[i].Clean {
+			for _, o := range sc.Mesh[i].Objs {
+				if !c20MeshValid(o) || c20OthDom(o.Kind) != dom {
+					continue
+				}
+				o.Ver = 0
+				cur[o.Name] = o
+			}
+		}
+		out = append(out, cur)
+	}
+	return out
+}
+
+func c20MeshValid(o c20Obj) bool {
+	return o.Name != "" && !strings.ContainsAny(o.Name, "/|?") && (o.Kind == c20KindPL || o.Kind == c20KindGate) && o.Bad == ""
+}
+
+// c20ExpectMesh: the same derivation for the other namespace. Inside one of
+// its two maps a name never changes its kind.
+func c20ExpectMesh(sc *c20Scenario, upto int) map[string][]*c20Exp {
+	out := map[string][]*c20Exp{}
+	for _, d := range []string{"othP", "othG"} {
+		prev := map[string]c20Obj{}
+		for i, cur := range c20MeshStates(sc, upto, d) {
+			for _, n := range c20SortedNames(prev, cur) {
+				p, was := prev[n]
+				c, is := cur[n]
+				key := n + "/" + d
+				switch {
+				case !was && is:
+					out[key] = append(out[key], &c20Exp{"init", c.Kind, c.Rev, 0, i, false})
+				case was && !is:
+					out[key] = append(out[key], &c20Exp{"close", p.Kind, p.Rev, 0, i, false})
+				case was && is && p.Rev != c.Rev:
+					out[key] = append(out[key], &c20Exp{"inherit", c.Kind, c.Rev, 0, i, false})
+				}
+			}
+			prev = cur
+		}
 	}
 	return out
 }
@@ -587,6 +942,7 @@ type c20Verdict struct {
 	msg   string
 	e     *c20Exp
 	miss  bool            // an expected call is missing / replaced
+	mode  int             // 1 = judged under the reading "an unusable document makes the name absent"
 	ok    map[string]bool // acceptable current instances after the matched prefix
 	live  bool
 }
@@ -596,7 +952,7 @@ type c20Verdict struct {
 func c20Walk(exp []*c20Exp, act []*c20Call, panicSnaps map[int]map[string]bool, key string) *c20Verdict {
 	v := &c20Verdict{ok: map[string]bool{}}
 	var curKind string
-	curRev := 0
+	curRev, curVer := 0, 0
 	for i := 0; i < len(exp) || i < len(act); i++ {
 		var e *c20Exp
 		var a *c20Call
@@ -608,7 +964,7 @@ func c20Walk(exp []*c20Exp, act []*c20Call, panicSnaps map[int]map[string]bool, 
 		}
 		v.e = e
 		switch {
-		case e != nil && e.KC && (a == nil || a.Op != e.Op || a.Kind != e.Kind || a.Rev != e.Rev):
+		case e != nil && e.KC && (a == nil || a.Op != e.Op || a.Kind != e.Kind || a.Rev != e.Rev || a.Ver != e.Ver):
 			v.class, v.miss = "C20.kind-change", true
 			got := "no call"
 			if a != nil {
@@ -622,7 +978,7 @@ func c20Walk(exp []*c20Exp, act []*c20Call, panicSnaps map[int]map[string]bool, 
 			return v
 		case e == nil || a.Op != e.Op:
 			switch {
-			case a.Op == "inherit" && v.live && a.Kind == curKind && a.Rev == curRev:
+			case a.Op == "inherit" && v.live && a.Kind == curKind && a.Rev == curRev && a.Ver == curVer:
 				v.class, v.msg = "C20.untouched", fmt.Sprintf("%s although the spec did not change", a)
 			case a.Op == "init" && v.live:
 				v.class, v.msg = "C20.init-duplicate", fmt.Sprintf("%s while the name already has a live object", a)
@@ -637,7 +993,7 @@ func c20Walk(exp []*c20Exp, act []*c20Call, panicSnaps map[int]map[string]bool, 
 			return v
 		}
 		// same operation
-		if a.Op != "close" && (a.Kind != e.Kind || a.Rev != e.Rev) {
+		if a.Op != "close" && (a.Kind != e.Kind || a.Rev != e.Rev || a.Ver != e.Ver) {
 			v.class, v.msg = "C20.wrong-spec", fmt.Sprintf("expected %s, got %s", e, a)
 			return v
 		}
@@ -672,7 +1028,7 @@ func c20Walk(exp []*c20Exp, act []*c20Call, panicSnaps map[int]map[string]bool, 
 			v.live = false
 		}
 		if a.Op != "close" {
-			curKind, curRev = a.Kind, a.Rev
+			curKind, curRev, curVer = a.Kind, a.Rev, a.Ver
 		}
 		if a.Panicked {
 			if panicSnaps[e.Snap] == nil {
@@ -685,6 +1041,8 @@ func c20Walk(exp []*c20Exp, act []*c20Call, panicSnaps map[int]map[string]bool, 
 	return v
 }
 
+func c20SortedKeys(m map[string]bool) []string { return c20Keys(m) }
+
 func c20Keys(m map[string]bool) []string {
 	out := []string{}
 	for k := range m {
@@ -692,6 +1050,26 @@ func c20Keys(m map[string]bool) []string {
 	}
 	sort.Strings(out)
 	return out
+}
+
+func c20MeshString(sc *c20Scenario, upto int) string {
+	var b strings.Builder
+	for i := 0; i <= upto && i < len(sc.Mesh); i++ {
+		fmt.Fprintf(&b, "m%d{", i)
+		if sc.Mesh[i].Clean {
+			b.WriteString("Clean")
+		}
+		sep := ""
+		for _, d := range []string{"othG", "othP"} {
+			m := c20MeshStates(sc, i, d)[i]
+			for _, n := range c20SortedNames(m) {
+				fmt.Fprintf(&b, "%s%s:%s/r%d", sep, n, m[n].Kind, m[n].Rev)
+				sep = " "
+			}
+		}
+		b.WriteString("} ")
+	}
+	return b.String()
 }
 
 func c20History(calls []*c20Call) string {
@@ -705,13 +1083,17 @@ func c20History(calls []*c20Call) string {
 func c20Snapshots(sc *c20Scenario, upto int) string {
 	var b strings.Builder
 	for i := 0; i <= upto && i < len(sc.Snaps); i++ {
-		m := c20SnapMap(sc.Snaps[i])
+		m := c20SnapAll(sc.Snaps[i])
 		fmt.Fprintf(&b, "s%d{", i)
 		for j, n := range c20SortedNames(m) {
 			if j > 0 {
 				b.WriteByte(' ')
 			}
-			fmt.Fprintf(&b, "%s:%s/r%d", n, m[n].Kind, m[n].Rev)
+			if m[n].Bad != "" {
+				fmt.Fprintf(&b, "%s:UNUSABLE(%s)", n, m[n].Bad)
+				continue
+			}
+			fmt.Fprintf(&b, "%s:%s/r%d%s", n, m[n].Kind, m[n].Rev, c20VerStr(m[n].Ver))
 		}
 		b.WriteString("} ")
 	}
@@ -780,10 +1162,16 @@ func c20Exec(r *sim.Run, sci interface{}) {
 	stuck := false
 	early := 0             // snapshots whose send completed before MustNew had returned
 	foldedSeveral := false // some domain's history is explained by folding >= 2 snapshots
+	badDocs := map[string]bool{}
+	usedAbsent := false    // some name's history is explained only by reading an unusable document as "absent"
 	const ns = rawconfigtrafficcontroller.DefaultNamespace
 
+	sent := -1
 	report := func(class, key string, upto int, format string, a ...interface{}) {
 		done[key] = true
+		if upto < 0 {
+			upto = sent
+		}
 		if reported[class+"|"+key] {
 			return
 		}
@@ -802,24 +1190,78 @@ func c20Exec(r *sim.Run, sci interface{}) {
 			c20History(st.calls[key]), strings.Join(other, ""), c20Snapshots(sc, upto))
 	}
 
-	// lookup returns what the controller of a domain holds under a name.
-	lookup := func(name, dom string) *supervisor.ObjectEntity {
-		if dom == "trf" {
+	// lookup returns what the controller of a domain holds under a name. The
+	// traffic domain has two accessors: objects of the kind Pipeline are held
+	// as pipelines, all other traffic kinds as traffic gates; other is what the
+	// accessor that is NOT responsible for the wanted kind returns (a name of
+	// the default namespace must never be held twice).
+	lookup := func(name, dom, wantKind string) (ent, other *supervisor.ObjectEntity) {
+		switch dom {
+		case "trf", "othP", "othG":
 			if tc == nil {
-				return nil
+				return nil, nil
 			}
-			if e, ok := tc.GetTrafficGate(ns, name); ok {
-				return e
+			space := ns
+			if dom != "trf" {
+				space = c20OtherNS
 			}
-			if e, ok := tc.GetPipeline(ns, name); ok {
-				return e
+			g, _ := tc.GetTrafficGate(space, name)
+			p, _ := tc.GetPipeline(space, name)
+			switch {
+			case dom == "othP":
+				return p, nil
+			case dom == "othG":
+				return g, nil
+			case wantKind == c20KindPL:
+				return p, g
+			case wantKind != "":
+				return g, p
+			case g != nil:
+				return g, p
 			}
-			return nil
+			return p, nil
 		}
 		if e, ok := super.GetBusinessController(name); ok {
-			return e
+			return e, nil
 		}
-		return nil
+		return nil, nil
+	}
+
+	// liveCheck compares what a controller holds under a name with the object
+	// the last applied state wants there (v = the verdict of the key's walk).
+	liveCheck := func(k, name, dom string, want c20Obj, wantLive bool, v *c20Verdict, upto int, what string) {
+		wantKind := ""
+		if wantLive {
+			wantKind = want.Kind
+		}
+		ent, other := lookup(name, dom, wantKind)
+		if other != nil && (ent != nil || wantLive) {
+			report("C20.live-set", k, upto, "the name is held as a %s by the accessor that is not responsible for the kind %s (pipelines: GetPipeline, all other traffic kinds: GetTrafficGate) in %s",
+				other.Spec().Kind(), wantKind, what)
+			return
+		}
+		switch {
+		case wantLive && ent == nil:
+			report("C20.live-set", k, upto, "in %s as %s/r%d%s but not held by its controller", what, want.Kind, want.Rev, c20VerStr(want.Ver))
+		case !wantLive && ent != nil:
+			report("C20.live-set", k, upto, "no object of this domain in %s but the controller still holds %s", what, ent.Spec().Kind())
+		case wantLive:
+			id := "foreign"
+			if p, ok := ent.Instance().(c20Ident); ok {
+				id = p.c20rec().id
+			}
+			rev, ver := -1, 0
+			if s, ok := ent.Spec().ObjectSpec().(*c20Spec); ok {
+				rev = s.Rev
+			}
+			if ent.Spec().Version() != supervisor.DefaultSpecVersion {
+				ver = 1
+			}
+			if ent.Spec().Kind() != want.Kind || rev != want.Rev || ver != want.Ver || !v.ok[id] {
+				report("C20.live-set", k, upto, "controller holds instance #%s with spec %s/r%d%s, %s wants %s/r%d%s as instance %v",
+					id, ent.Spec().Kind(), rev, c20VerStr(ver), what, want.Kind, want.Rev, c20VerStr(want.Ver), c20Keys(v.ok))
+			}
+		}
 	}
 
 	// judge compares everything recorded so far with what snapshots 0..upto
@@ -827,7 +1269,7 @@ func c20Exec(r *sim.Run, sci interface{}) {
 	judge := func(upto int) {
 		keySet := map[string]bool{}
 		for i := 0; i <= upto && i < len(sc.Snaps); i++ {
-			for n := range c20SnapMap(sc.Snaps[i]) {
+			for n := range c20SnapAll(sc.Snaps[i]) {
 				for _, d := range c20Domains {
 					keySet[n+"/"+d] = true
 				}
@@ -841,6 +1283,17 @@ func c20Exec(r *sim.Run, sci interface{}) {
 			keys = append(keys, k)
 		}
 		sort.Strings(keys)
+		// Unusable documents: the statement does not say what a name is whose
+		// document cannot be turned into a spec. Two readings are accepted per
+		// name: nothing happens to the name (it stays what it was), or the name
+		// is not part of the snapshot. All other names are judged as always.
+		badNames := c20BadNames(sc, upto)
+		resolved := [2][]map[string]c20Obj{c20Resolved(sc, upto, false), nil}
+		nmodes := 1
+		if len(badNames) > 0 {
+			resolved[1] = c20Resolved(sc, upto, true)
+			nmodes = 2
+		}
 		// Start-up rule: the snapshots sent before MustNew had returned may
 		// have been applied before a domain's watcher existed; any number of
 		// them (0..early) may have been folded into the watcher's first
@@ -858,9 +1311,15 @@ func c20Exec(r *sim.Run, sci interface{}) {
 			var bestV map[string]*c20Verdict
 			var bestP map[int]map[string]bool
 			bestFold := 0
-			for fold := 0; fold <= maxFold; fold++ {
-				exp := map[string][]*c20Exp{}
-				c20ExpectDom(sc, upto, d, fold, exp)
+			// first every folding under the reading "nothing happens to a name
+			// with an unusable document" alone, only then with the second reading
+			for pass := 0; pass < nmodes*(maxFold+1) && bestBad != 0; pass++ {
+				fold, allowAbsent := pass%(maxFold+1), pass > maxFold
+				var exp [2]map[string][]*c20Exp
+				for m := 0; m < nmodes; m++ {
+					exp[m] = map[string][]*c20Exp{}
+					c20ExpectDom(resolved[m], d, fold, exp[m])
+				}
 				vs := map[string]*c20Verdict{}
 				ps := map[int]map[string]bool{}
 				bad := 0
@@ -868,7 +1327,26 @@ func c20Exec(r *sim.Run, sci interface{}) {
 					if done[k] || strings.HasPrefix(k, "?") || !strings.HasSuffix(k, "/"+d) {
 						continue
 					}
-					vs[k] = c20Walk(exp[k], st.calls[k], ps, k)
+					name := k[:strings.IndexByte(k, '/')]
+					kp := map[int]map[string]bool{}
+					vs[k] = c20Walk(exp[0][k], st.calls[k], kp, k)
+					if vs[k].class != "" && badNames[name] && allowAbsent {
+						kp2 := map[int]map[string]bool{}
+						if v2 := c20Walk(exp[1][k], st.calls[k], kp2, k); v2.class == "" {
+							v2.mode = 1
+							vs[k], kp = v2, kp2
+						} else {
+							vs[k].msg += " [the name had an unusable document: neither reading (name stays what it was / name is absent) explains the calls]"
+						}
+					}
+					for sn, m := range kp {
+						if ps[sn] == nil {
+							ps[sn] = map[string]bool{}
+						}
+						for kk := range m {
+							ps[sn][kk] = true
+						}
+					}
 					if vs[k].class != "" {
 						bad++
 						vs[k].msg += fmt.Sprintf(" [start-up: %d early snapshot(s), best explanation folds the first %d]", early, fold)
@@ -876,9 +1354,6 @@ func c20Exec(r *sim.Run, sci interface{}) {
 				}
 				if bestBad < 0 || bad < bestBad {
 					bestBad, bestV, bestP, bestFold = bad, vs, ps, fold
-				}
-				if bad == 0 {
-					break
 				}
 			}
 			if bestFold >= 2 {
@@ -895,10 +1370,6 @@ func c20Exec(r *sim.Run, sci interface{}) {
 					panicSnaps[sn][k] = true
 				}
 			}
-		}
-		last := map[string]c20Obj{}
-		if upto < len(sc.Snaps) {
-			last = c20SnapMap(sc.Snaps[upto])
 		}
 		for _, k := range keys {
 			v := verdicts[k]
@@ -925,33 +1396,61 @@ func c20Exec(r *sim.Run, sci interface{}) {
 				continue
 			}
 			name, dom := k[:i], k[i+1:]
-			want, present := last[name]
-			wantLive := present && c20Domain(want.Kind) == dom
-			ent := lookup(name, dom)
-			switch {
-			case wantLive && ent == nil:
-				report("C20.live-set", k, upto, "in the last applied snapshot s%d as %s/r%d but not held by its controller", upto, want.Kind, want.Rev)
-			case !wantLive && ent != nil:
-				report("C20.live-set", k, upto, "no object of this domain in the last applied snapshot s%d but the controller still holds %s", upto, ent.Spec().Kind())
-			case wantLive:
-				id := "foreign"
-				if p, ok := ent.Instance().(c20Ident); ok {
-					id = p.c20rec().id
-				}
-				rev := -1
-				if s, ok := ent.Spec().ObjectSpec().(*c20Spec); ok {
-					rev = s.Rev
-				}
-				if ent.Spec().Kind() != want.Kind || rev != want.Rev || !v.ok[id] {
-					report("C20.live-set", k, upto, "controller holds instance #%s with spec %s/r%d, the last applied snapshot s%d wants %s/r%d as instance %v",
-						id, ent.Spec().Kind(), rev, upto, want.Kind, want.Rev, c20Keys(v.ok))
-				}
+			if v.mode == 1 {
+				usedAbsent = true
 			}
+			last := map[string]c20Obj{}
+			if upto < len(resolved[v.mode]) {
+				last = resolved[v.mode][upto]
+			}
+			want, present := last[name]
+			liveCheck(k, name, dom, want, present && c20Domain(want.Kind) == dom, v, upto, fmt.Sprintf("the last applied snapshot s%d", upto))
 		}
 		// calls on an instance that never got a spec (Close before Init/Inherit)
 		for _, k := range keys {
 			if strings.HasPrefix(k, "?") && !done[k] && len(st.calls[k]) > 0 {
 				report("C20.close-wrong-instance", k, upto, "an instance that was never initialised was closed")
+			}
+		}
+	}
+
+	// judgeMesh: the objects of the other namespace against the desired states
+	// the mesh task has applied completely (0..upto). The task calls the
+	// TrafficController synchronously, so no settling is needed.
+	judgeMesh := func(upto int) {
+		exp := c20ExpectMesh(sc, upto)
+		keySet := map[string]bool{}
+		for k := range exp {
+			keySet[k] = true
+		}
+		for k := range st.calls {
+			if strings.HasSuffix(k, "/othP") || strings.HasSuffix(k, "/othG") {
+				keySet[k] = true
+			}
+		}
+		keys := make([]string, 0, len(keySet))
+		for k := range keySet {
+			keys = append(keys, k)
+		}
+		sort.Strings(keys)
+		for _, d := range []string{"othP", "othG"} {
+			states := c20MeshStates(sc, upto, d)
+			last := map[string]c20Obj{}
+			if len(states) > 0 {
+				last = states[len(states)-1]
+			}
+			for _, k := range keys {
+				if done[k] || !strings.HasSuffix(k, "/"+d) || strings.HasPrefix(k, "?") {
+					continue
+				}
+				v := c20Walk(exp[k], st.calls[k], map[int]map[string]bool{}, k)
+				if v.class != "" {
+					report(strings.Replace(v.class, "C20.", "C20.other-namespace.", 1), k, -1, "%s [desired states of namespace %s: %s]", v.msg, c20OtherNS, c20MeshString(sc, upto))
+					continue
+				}
+				name := k[:strings.IndexByte(k, '/')]
+				want, present := last[name]
+				liveCheck(k, name, d, want, present, v, -1, fmt.Sprintf("the last desired state m%d of namespace %s (%s)", upto, c20OtherNS, c20MeshString(sc, upto)))
 			}
 		}
 	}
@@ -977,7 +1476,6 @@ func c20Exec(r *sim.Run, sci interface{}) {
 		return false
 	}
 
-	sent := -1
 	feeder := func() {
 		for i, sn := range sc.Snaps {
 			if r.Aborted() || stuck {
@@ -999,9 +1497,13 @@ func c20Exec(r *sim.Run, sci interface{}) {
 				}
 			}
 			m := map[string]string{}
-			objs := c20SnapMap(sn)
+			objs := c20SnapAll(sn)
 			for _, n := range c20SortedNames(objs) {
-				m[prefix+n] = c20YAML(objs[n])
+				m[prefix+n] = c20YAML(objs[n], false)
+				if objs[n].Bad != "" {
+					r.Fault("unusable-document." + objs[n].Bad)
+					badDocs[m[prefix+n]] = true
+				}
 			}
 			ch <- m
 			sent = i
@@ -1064,7 +1566,11 @@ func c20Exec(r *sim.Run, sci interface{}) {
 	if e, ok := super.GetSystemController(trafficcontroller.Kind); ok {
 		tc, _ = e.Instance().(*trafficcontroller.TrafficController)
 	}
-	if _, ok := super.GetSystemController(rawconfigtrafficcontroller.Kind); !ok || tc == nil {
+	var rctc *rawconfigtrafficcontroller.RawConfigTrafficController
+	if e, ok := super.GetSystemController(rawconfigtrafficcontroller.Kind); ok {
+		rctc, _ = e.Instance().(*rawconfigtrafficcontroller.RawConfigTrafficController)
+	}
+	if rctc == nil || tc == nil {
 		r.Violate("C20.harness", "TrafficController / RawConfigTrafficController system controllers missing")
 		stuck = true
 		close(readyCh)
@@ -1091,18 +1597,144 @@ func c20Exec(r *sim.Run, sci interface{}) {
 				r.Sleep(time.Duration(gap) * time.Microsecond)
 				switch op.Op {
 				case "walk":
-					super.WalkControllers(func(e *supervisor.ObjectEntity) bool { _ = e.Spec().Name(); return true })
+					// what StatusSyncController does every few seconds
+					super.WalkControllers(func(e *supervisor.ObjectEntity) bool { _ = e.Spec().Name(); _ = e.Instance().Status(); return true })
 				case "list":
 					tc.ListTrafficGates(ns)
+				case "listp":
+					tc.ListPipelines(ns)
+				case "walkp":
+					tc.WalkPipelines(ns, func(e *supervisor.ObjectEntity) bool { _ = e.Spec().Name(); return true })
+					tc.WalkTrafficGates(ns, func(e *supervisor.ObjectEntity) bool { _ = e.Spec().Name(); return true })
+				case "status":
+					rctc.Status()
+					tc.Status()
+				case "rcpipe":
+					rctc.GetPipeline(op.Name)
 				case "gettrf":
-					lookup(op.Name, "trf")
+					lookup(op.Name, "trf", "")
 				default:
-					lookup(op.Name, "biz")
+					lookup(op.Name, "biz", "")
 				}
 			}
 		})
 	}
+	meshDone := -1
+	if len(sc.Mesh) > 0 {
+		r.Go("mesh", func() {
+			own := map[string]int{} // style 1: what the task believes to have created ("<kind>/<name>" -> rev)
+			for i, step := range sc.Mesh {
+				if r.Aborted() || stuck {
+					return
+				}
+				gap := step.GapUs
+				if gap < 0 || gap > 10000000 {
+					gap = 0
+				}
+				r.Sleep(time.Duration(gap) * time.Microsecond)
+				want := map[string]bool{}
+				if step.Clean {
+					own = map[string]int{}
+					tc.Clean(c20OtherNS)
+					r.Probe("c20.other_namespace_cleaned")
+				} else {
+					// the way the ingress controllers translate their desired
+					// state: apply everything wanted, then delete what is
+					// listed but not wanted
+					objs := append([]c20Obj(nil), step.Objs...)
+					sort.SliceStable(objs, func(a, b int) bool {
+						if objs[a].Name != objs[b].Name {
+							return objs[a].Name < objs[b].Name
+						}
+						return objs[a].Kind < objs[b].Kind
+					})
+					for _, o := range objs {
+						if !c20MeshValid(o) || want[o.Kind+"/"+o.Name] {
+							continue
+						}
+						want[o.Kind+"/"+o.Name] = true
+						o.Ver = 0
+						spec, err := super.NewSpec(c20YAML(o, true))
+						if err != nil {
+							r.Violate("C20.harness", "mesh document rejected: %v", err)
+							return
+						}
+						rev, have := own[o.Kind+"/"+o.Name]
+						switch {
+						case sc.MeshStyle != 1 && o.Kind == c20KindPL:
+							_, err = tc.ApplyPipelineForSpec(c20OtherNS, spec)
+						case sc.MeshStyle != 1:
+							_, err = tc.ApplyTrafficGateForSpec(c20OtherNS, spec)
+						case have && rev == o.Rev:
+						case have && o.Kind == c20KindPL:
+							_, err = tc.UpdatePipelineForSpec(c20OtherNS, spec)
+						case have:
+							_, err = tc.UpdateTrafficGateForSpec(c20OtherNS, spec)
+						case o.Kind == c20KindPL:
+							_, err = tc.CreatePipelineForSpec(c20OtherNS, spec)
+						default:
+							_, err = tc.CreateTrafficGateForSpec(c20OtherNS, spec)
+						}
+						own[o.Kind+"/"+o.Name] = o.Rev
+						if err != nil {
+							r.Violate("C20.other-namespace.apply-failed", "applying %s %s to namespace %s failed: %v", o.Kind, o.Name, c20OtherNS, err)
+							return
+						}
+					}
+					var del []string
+					if sc.MeshStyle == 1 {
+						for k := range own {
+							if !want[k] {
+								delete(own, k)
+								if strings.HasPrefix(k, c20KindPL+"/") {
+									del = append(del, "P"+k[len(c20KindPL)+1:])
+								} else {
+									del = append(del, "G"+k[len(c20KindGate)+1:])
+								}
+							}
+						}
+					} else {
+						for _, e := range tc.ListPipelines(c20OtherNS) {
+							if !want[c20KindPL+"/"+e.Spec().Name()] {
+								del = append(del, "P"+e.Spec().Name())
+							}
+						}
+						for _, e := range tc.ListTrafficGates(c20OtherNS) {
+							if !want[c20KindGate+"/"+e.Spec().Name()] {
+								del = append(del, "G"+e.Spec().Name())
+							}
+						}
+					}
+					sort.Strings(del)
+					for _, d := range del {
+						if d[0] == 'P' {
+							tc.DeletePipeline(c20OtherNS, d[1:])
+						} else {
+							tc.DeleteTrafficGate(c20OtherNS, d[1:])
+						}
+					}
+				}
+				meshDone = i
+			}
+		})
+	}
 	r.WaitTasks()
+	if meshDone >= 0 && !stuck && !r.Aborted() {
+		judgeMesh(meshDone)
+		// the default namespace once more, now that the other namespace is
+		// final: nothing the mesh task did may have touched it
+		if sent == len(sc.Snaps)-1 {
+			judge(sent)
+		}
+	}
+	// the documents meant to be unusable really are
+	if !stuck && !r.Aborted() {
+		for _, doc := range c20SortedKeys(badDocs) {
+			if _, err := super.NewSpec(doc); err == nil {
+				r.Violate("C20.harness", "a document meant to be unusable was accepted: %q", doc)
+			}
+		}
+	}
 
 	// shutdown (not judged)
 	st.ended = true
@@ -1156,9 +1788,10 @@ func c20Exec(r *sim.Run, sci interface{}) {
 		if ops["init"] && ops["inherit"] && ops["close"] {
 			fullCycle++
 		}
-		if strings.HasSuffix(k, "/trf") {
+		switch {
+		case strings.HasSuffix(k, "/trf"):
 			seen["trf"]++
-		} else {
+		case strings.HasSuffix(k, "/biz"):
 			seen["biz"]++
 		}
 		r.Eventf("%s: %s", k, c20History(st.calls[k]))
@@ -1177,18 +1810,75 @@ func c20Exec(r *sim.Run, sci interface{}) {
 	}
 	// generator-side conditions actually delivered
 	prev := map[string]c20Obj{}
-	for i := 0; i <= sent && i < len(sc.Snaps); i++ {
-		cur := c20SnapMap(sc.Snaps[i])
+	resolvedAll := c20Resolved(sc, sent, false)
+	badSeen := map[string]bool{}
+	if usedAbsent {
+		r.Probe("c20.unusable_document_explained_only_as_absent")
+	}
+	for i := 0; i <= sent && i < len(resolvedAll); i++ {
+		cur := resolvedAll[i]
+		raw := c20SnapAll(sc.Snaps[i])
 		changes, kcs := 0, 0
 		doms := map[string]bool{}
+		npl, ngate := 0, 0
+		for _, n := range c20SortedNames(cur) {
+			if cur[n].Kind == c20KindPL {
+				npl++
+			} else if c20Domain(cur[n].Kind) == "trf" {
+				ngate++
+			}
+		}
+		if npl > 0 {
+			r.Probe("c20.pipeline_kind_object_live")
+		}
+		if npl > 0 && ngate > 0 {
+			r.Probe("c20.pipelines_and_gates_live_together")
+		}
+		if len(cur) >= 5 {
+			r.Probe("c20.snapshot_with>=5_objects")
+		}
+		for _, n := range c20SortedNames(raw) {
+			if raw[n].Bad != "" {
+				r.Probe("c20.unusable_document." + raw[n].Bad)
+				if _, was := prev[n]; was {
+					r.Probe("c20.unusable_document_for_live_name")
+				} else {
+					r.Probe("c20.unusable_document_for_absent_name")
+				}
+				badSeen[n] = true
+				if len(raw) >= 2 {
+					r.Probe("c20.unusable_document_with_siblings_in_snapshot")
+				}
+			} else if badSeen[n] {
+				r.Probe("c20.good_document_after_unusable_one")
+				badSeen[n] = false
+			}
+		}
 		for _, n := range c20SortedNames(prev, cur) {
 			p, was := prev[n]
 			c, is := cur[n]
+			if was && !is && p.Kind == c20KindPL {
+				if npl == 0 && ngate > 0 {
+					r.Probe("c20.last_pipeline_deleted_gates_remain")
+				}
+			}
+			if was && !is && c20Domain(p.Kind) == "trf" && p.Kind != c20KindPL && ngate == 0 && npl > 0 {
+				r.Probe("c20.last_gate_deleted_pipelines_remain")
+			}
 			switch {
-			case was && is && p.Kind == c.Kind && p.Rev == c.Rev:
+			case was && is && p.Kind == c.Kind && p.Rev == c.Rev && p.Ver == c.Ver:
+				if raw[n].Bad != "" {
+					continue
+				}
 				r.Probe("c20.unchanged_object_resent")
 				if p.Alt != c.Alt {
 					r.Probe("c20.unchanged_object_other_yaml_formatting")
+				}
+				if p.Form != c.Form {
+					r.Probe("c20.unchanged_object_other_document_shape")
+					if p.Form == 1 || c.Form == 1 {
+						r.Probe("c20.unchanged_object_stored_form_vs_handwritten")
+					}
 				}
 				continue
 			case was && is && p.Kind != c.Kind:
@@ -1197,7 +1887,12 @@ func c20Exec(r *sim.Run, sci interface{}) {
 					r.Probe("c20.kind_change_across_controllers")
 				} else {
 					r.Probe("c20.kind_change_within_controller")
+					if p.Kind == c20KindPL || c.Kind == c20KindPL {
+						r.Probe("c20.kind_change_between_pipeline_and_gate")
+					}
 				}
+			case was && is && p.Rev == c.Rev && p.Ver != c.Ver:
+				r.Probe("c20.version_only_change")
 			}
 			changes++
 			if was {
@@ -1255,6 +1950,39 @@ func c20Exec(r *sim.Run, sci interface{}) {
 	if fullCycle > 0 {
 		r.Probe("c20.name_with_init_inherit_close")
 	}
+	// the other namespace
+	if meshDone >= 0 {
+		r.Probe(fmt.Sprintf("c20.other_namespace_driven.style%d", sc.MeshStyle&1))
+		othCalls, both := 0, false
+		for _, k := range keys {
+			if !strings.HasSuffix(k, "/othP") && !strings.HasSuffix(k, "/othG") {
+				continue
+			}
+			for _, c := range st.calls[k] {
+				othCalls++
+				r.Probe("c20.other_namespace." + c.Op)
+				if c.Panicked {
+					r.Probe("c20.other_namespace.callback_panicked")
+				}
+			}
+			if len(st.calls[k[:strings.IndexByte(k, '/')]+"/trf"]) > 0 {
+				both = true
+			}
+		}
+		if both {
+			r.Probe("c20.same_name_in_both_namespaces")
+		}
+		_ = othCalls
+	}
+	// a Close that panicked as part of a change of kind
+	for _, k := range keys {
+		cs := st.calls[k]
+		for i, c := range cs {
+			if c.Op == "close" && c.Panicked && i+1 < len(cs) && cs[i+1].Op == "init" && cs[i+1].Kind != c.Kind {
+				r.Probe("c20.close_panicked_in_kind_change")
+			}
+		}
+	}
 	r.SetSig(sig.String())
 }
 
@@ -1266,13 +1994,13 @@ func TestVerifC20(t *testing.T) {
 		Exec:          c20Exec,
 		MaxSteps:      40000,
 		DeadlockClass: "C20.deadlock",
-		Rule: "scenario = 2-18 full snapshots over <=4 names and 4 kinds of two controller domains (appear, spec change, unchanged incl. other YAML formatting, disappear, reappear, " +
-			"change of kind inside a domain and across domains, several at once) pushed with drawn gaps through a syncer channel of drawn capacity while Supervisor and RawConfigTrafficController both watch the registry, " +
-			"panics planned at the n-th Init/Inherit/Close of a name, callback delays, backlog runs, concurrent reader tasks; non-trivial = at least one Init, one Inherit and one Close were executed and >=2 (name, domain) lifecycles received calls; " +
+		Rule: "scenario = 2-18 full snapshots over <=6 names and 5 kinds of two controller domains, one of them registered under the kind name Pipeline (appear, spec change incl. version-only, unchanged incl. other YAML formatting / stored form / JSON / comments, disappear, reappear, " +
+			"change of kind inside a domain (also between the pipeline map and the traffic-gate map) and across domains, several at once, documents that cannot be turned into a spec) pushed with drawn gaps through a syncer channel of drawn capacity while Supervisor and RawConfigTrafficController both watch the registry, " +
+			"panics planned at the n-th Init/Inherit/Close of a name, callback delays, backlog runs, concurrent reader tasks (Get/List/Walk/Status), in 30% of the runs a task that drives a second TrafficController namespace with the same names through Apply*ForSpec/Delete*/Clean; non-trivial = at least one Init, one Inherit and one Close were executed and >=2 (name, domain) lifecycles received calls; " +
 			"distinct = distinct per-(name, domain) call histories with kinds, revisions and panics",
 		Real: []string{"pkg/supervisor (MustNew, ObjectRegistry.run/applyConfig/NewWatcher with both production watchers, Supervisor.run/handleEvent, ObjectEntity.*WithRecovery, Spec/NewSpec)",
-			"pkg/object/trafficcontroller (TrafficController Create/Update/Delete TrafficGate)", "pkg/object/rawconfigtrafficcontroller (Init/reload, watcher loop, handleEvent)"},
-		Stub: []string{"cluster -> clustertest.MockedCluster, syncer channel fed by the harness", "four recording object kinds registered by the harness (2 business controllers, 1 pipeline-category, 1 traffic-gate-category)",
+			"pkg/object/trafficcontroller (TrafficController Create/Update/Delete TrafficGate and Pipeline, Apply*ForSpec, Clean, _cleanSpace, Get/List/Walk/Status, two namespaces)", "pkg/object/rawconfigtrafficcontroller (Init/reload, watcher loop, handleEvent)"},
+		Stub: []string{"cluster -> clustertest.MockedCluster, syncer channel fed by the harness", "five recording object kinds registered by the harness (2 business controllers, 1 pipeline-category, 1 traffic-gate-category, 1 registered under the kind name Pipeline IN PLACE of the real Pipeline object)",
 			"sync.Mutex/sync.Map -> simsync (same semantics + gates); map ranges, multi-case selects and goroutine starts of the three packages determinised by check.json map_ranges/selects/go_gates", "logger -> nop",
 			"running_objects.yaml: the home directory name contains a NUL byte, so the write fails (logged) before any system call is made"},
 		Assumptions: []string{
@@ -1283,7 +2011,10 @@ func TestVerifC20(t *testing.T) {
 			"every snapshot put on the syncer channel counts as applied, in order; Supervisor.Close (shutdown) is not judged",
 			"start-up: snapshots applied before a domain's watcher exists are legitimately folded into its first event; a domain's history must match some folding of 0..E leading snapshots (E = snapshots sent before MustNew returned), the same for all names of the domain",
 			"quiescence = a 2 h simulated sleep returns during which the scheduler stalled for less than 2 h (r.StalledFor) and no snapshot/watcher event is pending",
-			"the real Pipeline kind is not used: all traffic test kinds live in TrafficController's traffic-gate map",
+			"the real Pipeline object's own Init/Inherit/Close are not under test: a recording object is registered under its kind name, so that the pipeline map of TrafficController is reached; an object of that kind must be held by GetPipeline, every other traffic kind by GetTrafficGate, never both",
+			"a document in another shape (stored form with every default written out incl. the default version, JSON, comments) is an unchanged spec; a change of version: alone is a spec change",
+			"a name whose document cannot be turned into a spec: two readings accepted per name (it stays what it was / it is absent), first tried without the second reading; all other names of the snapshot are judged as always",
+			"other namespace: the mesh task applies desired states the way the ingress controllers do; Apply with an equal spec = unchanged, with a changed spec = Inherit, listed-but-unwanted = Delete = Close, Clean = everything disappears; it shares the panic plan (counted per name and operation over both namespaces)",
 		},
 	})
 }
